@@ -341,6 +341,7 @@ def rule_e(res: Results, idx: Index) -> None:
 def run(res: Results, idx: Index, tier: str) -> None:
     rule_f(res, idx)
     rule_g(res, idx)
+    rule_h(res, idx)
     res.rule("R-C03e", "slices and offset+index accesses into a node's result tuple / a body graph's interface list coincide with the sections the list was assembled from", floor=15)
     rule_e(res, idx)
     res.rule("R-C03a", "value names are fresh / existing / derived / interface; a literal name must be single-shot per scope", floor=1500)
@@ -591,3 +592,41 @@ def rule_g(res: Results, idx: Index) -> None:
     res.rule("R-C03g", "settings a nested scope inherits with getattr(parent, name, default) name attributes that exist", floor=4)
     for site, key, status, detail, func, _ in inherited_settings(idx):
         res.add("R-C03g", status, site, key, detail, func)
+
+
+# ---------------------------------------------------------------------------------------------- R-C03h
+def rule_h(res: Results, idx: Index) -> None:
+    """An ONNX function whose output is one of its own inputs (callee returns an argument unchanged: a body without a
+    producing node) passes the checker but ONNX Runtime refuses to load the model.  Between collecting the body's output
+    values and sealing the scope, outputs that are function inputs have to be routed through a node (Identity)."""
+    res.rule("R-C03h", "function outputs that alias a function input are routed through a node before the scope is sealed", floor=1)
+    PSF = "jax2onnx/plugins/plugin_system.py"
+    f = idx.find_func(PSF, "FunctionPlugin._lower_and_call")
+    if f is None:
+        raise AnalysisError("FunctionPlugin._lower_and_call not found")
+    du = defuse(f.node)
+    ends = [c for c in walk_no_nested(f.node) if isinstance(c, ast.Call) and isinstance(c.func, ast.Attribute) and c.func.attr == "end" and any(k.arg == "outputs" for k in c.keywords)]
+    begins = [d for ds in du.defs.values() for d in ds if d.value is not None and isinstance(d.value, ast.Call) and isinstance(d.value.func, ast.Attribute) and d.value.func.attr == "begin"]
+    key = f"{PSF}::FunctionPlugin._lower_and_call::output-aliases-input"
+    if not ends or not begins:
+        raise AnalysisError("_lower_and_call: fscope.begin(...) / fscope.end(outputs=...) not found")
+    out_name = next((k.value.id for k in ends[0].keywords if k.arg == "outputs" and isinstance(k.value, ast.Name)), None)
+    in_names = {d.name for d in begins}
+    fixes = []
+    for lp in walk_no_nested(f.node):
+        if isinstance(lp, ast.For) and out_name and out_name in names_in(lp.iter) and lp.lineno < ends[0].lineno:
+            emits = [x for st in lp.body for x in ast.walk(st) if isinstance(x, ast.Call) and isinstance(x.func, ast.Attribute) and x.func.attr == "Identity"]
+            tests = [x for st in lp.body for x in ast.walk(st) if isinstance(x, ast.If)]
+            cl = set()
+            for t in tests:
+                cl |= du.closure(names_in(t.test)) | names_in(t.test)
+            stores = [x for st in lp.body for x in ast.walk(st) if isinstance(x, ast.Assign) and any(isinstance(t, ast.Subscript) and isinstance(t.value, ast.Name) and t.value.id == out_name for t in x.targets)]
+            g = cfg_of(f.node)
+            live = g.live_nodes()
+            reach = [s for s in stores if any(n in live for n in g.nodes_of(s))]
+            if emits and reach and (cl & in_names):
+                fixes.append(lp)
+    if fixes:
+        res.ok("R-C03h", f"{PSF}:{fixes[0].lineno}", key, f"outputs in `{out_name}` that are function inputs ({sorted(in_names)}) are replaced by an Identity of them before fscope.end()", f.qualname)
+    else:
+        res.violation("R-C03h", f"{PSF}:{ends[0].lineno}", key, f"`{src(ends[0], 50)}` seals the function with the body's output values as they are: when the callee returns an argument unchanged the function output is the function input itself (no node in the body), which ONNX Runtime rejects at load time", f.qualname)
